@@ -65,6 +65,23 @@ func (self ValueAnyObject) Fields() (map[string]*Value, *Interrupt) {
 			value := self.FieldsInternal[args[0].(ValueString).Inner]
 			return NewValueOption(value), nil
 		}),
+		"get_type": NewValueBuiltinFunction(func(executor Executor, cancelCtx *context.Context, span errors.Span, args ...Value) (*Value, *Interrupt) {
+			key := args[0].(ValueString).Inner
+			value, found := self.FieldsInternal[key]
+			if !found || value == nil {
+				return nil, NewRuntimeErr(fmt.Sprintf("Value of type 'any-object' has no field named '%s'", key), IndexOutOfBoundsErrorKind, span)
+			}
+			// same names as the VM (the analyzer's type kind names)
+			switch (*value).Kind() {
+			case StringValueKind:
+				return NewValueString("str"), nil
+			case OptionValueKind:
+				return NewValueString("Option"), nil
+			case FunctionValueKind, ClosureValueKind, BuiltinFunctionValueKind:
+				return NewValueString("function"), nil
+			}
+			return NewValueString((*value).Kind().String()), nil
+		}),
 		"keys": NewValueBuiltinFunction(func(executor Executor, cancelCtx *context.Context, span errors.Span, args ...Value) (*Value, *Interrupt) {
 			rawKeys := make([]string, 0)
 			for key := range self.FieldsInternal {
